@@ -103,8 +103,11 @@ def components(ctx):
 
 
 def check(ctx):
+    # datastruct/elasticarray.c is one of this property's files and the heap grows through it: heap/timer-queue add under
+    # allocation failure (heap unchanged, still usable) is modelled and proved in C14 and swept here too.
+    from props import c14 as _c14
     return vlib.standard_check(
-        ctx, MODULES, components(ctx),
+        ctx, MODULES, components(ctx), extra_run=lambda c: _c14.run_components(c, ["containers", "events"]),
         assumptions=["the caller's comparator is a total preorder induced by a key (as timerqueue's tvcmp is)",
                      "handle operations are applied to live elements with the documented direction of key change (API contract)"],
         trusted=["pmodel (compiled Lean model)", "harness/h_heap.c", "gcc ASan/UBSan as the out-of-bounds detector in the real code"])
